@@ -327,7 +327,8 @@ pub fn gen_dataset(r: &mut Rng, shape: usize, big: bool) -> Vec<Q> {
             for _ in 0..r.range(1, 3) {
                 v.push(e(b(r.below(n)), P, b(r.below(n))));
             }
-            let bad: Q = match r.below(6) {
+            let bad: Q = match r.below(7) {
+                6 => { v.push(([b(0), lit_dt("p", &format!("{XSD}string")), b(1)], None)); ([b(1), lit_dt("p", &format!("{XSD}string")), b(0)], None) }
                 0 => ([b(0), bnode("pred"), b(1)], None),
                 1 => ([var("v"), iri(P), b(0)], None),
                 2 => ([b(0), iri(P), triple(b(0), iri(P), b(1))], None),
@@ -767,6 +768,12 @@ const PL_GRID: [usize; 7] = [0, 1, 2, 3, 4, 6, 12];
 
 fn check_one(tag: &str, d: &[Q], order: &[Q], out: &Outcome, spec: &Result<SpecOut, String>, df1000: u64, pl: usize, fails: &mut Vec<String>) {
     let nb = d_blanks(d).len();
+    // generalized RDF (a literal as predicate) is outside RDFC-1.0 and outside the property: sophia then
+    // either writes a generalized document or panics in hash_related_bnode (`quad.p().iri().unwrap()`);
+    // only the model of the implementation is compared on such input
+    if d.iter().any(|q| !matches!(q.0[1], SimpleTerm::Iri(_) | SimpleTerm::BlankNode(_) | SimpleTerm::Triple(_) | SimpleTerm::Variable(_))) {
+        return;
+    }
     match out.code {
         0 => {
             // (b) the document re-reads to a dataset isomorphic to the input, labelled c14n0..c14n(n-1)
@@ -808,10 +815,7 @@ fn check_one(tag: &str, d: &[Q], order: &[Q], out: &Outcome, spec: &Result<SpecO
                 Err(e) => fails.push(format!("{tag}: ToxicGraph on input outside RDFC-1.0 ({e})")),
             }
         }
-        _ => {
-            let generalized = d.iter().any(|q| !matches!(q.0[1], SimpleTerm::Iri(_) | SimpleTerm::BlankNode(_)));
-            if !generalized { fails.push(format!("{tag}: canonicalisation ended with {} instead of a result or an explicit error", out.msg)); }
-        }
+        _ => fails.push(format!("{tag}: canonicalisation ended with {} instead of a result or an explicit error", out.msg)),
     }
 }
 
@@ -826,12 +830,13 @@ pub fn run(mode: &str) {
     let once = coq_bool(!prefix_model);
     let mut sum = Summary::default();
     sum.rule = if c06 {
-        "case = (dataset: every graph over 3 blank nodes and 2 predicates with 1..4 edges in the thorough tier, then the C05 shapes with emphasis on literals with escape-relevant characters, quads mentioning one node twice and quads with three blank nodes; store type; SHA-256 or SHA-384; run once with the default limits and once with (depth_factor, permutation_limit) from the grid {0,.25,.5,1,1.5,2,3} x {0,1,2,3,4,6,12}); three-way comparison implementation / model of the implementation / model of the specification; non-trivial = hash-n-degree ran (two blank nodes share a first-degree hash), or a literal needs escaping, or the input is unsupported, or a limit fired; distinct = distinct (dataset, limits, hash)".into()
+        "case = (dataset: every graph over 3 blank nodes and 2 predicates with 1..4 edges in the thorough tier, then the C05 shapes with emphasis on literals with escape-relevant characters, quads mentioning one node twice and quads with three blank nodes, and (rarely, being expensive) datasets with more than ten blank nodes in which one node is related twice to another, so that temporary identifiers _:b9 / _:b10 give permutation paths of different lengths; store type; SHA-256 or SHA-384; run once with the default limits and once with (depth_factor, permutation_limit) from the grid {0,.25,.5,1,1.5,2,3} x {0,1,2,3,4,6,12}); three-way comparison implementation / model of the implementation / model of the specification; non-trivial = hash-n-degree ran (two blank nodes share a first-degree hash), or a literal needs escaping, or the input is unsupported, or a limit fired; distinct = distinct (dataset, limits, hash)".into()
     } else {
         "case = (dataset of one shape among cycle / clique / disjoint isomorphic components / star / bipartite / blank graph names / node twice in a quad / three blank nodes in a quad / section-4-row-28 witness / literals / random / unsupported / tree, at most 6 blank nodes; a copy under a random label bijection and quad order; two store types among HashSet, BTreeSet, FastDataset, LightDataset; SHA-256 or SHA-384); non-trivial = hash-n-degree ran (two blank nodes share a first-degree hash); distinct = distinct (dataset, copy, hash)".into()
     };
     let base = Rng::new(a.seed);
-    let thorough = a.n >= 10000;
+    // tier-dependent generation is selected by an explicit flag so that `--only` replays reproduce it
+    let thorough = a.rest.iter().any(|x| x == "--thorough");
     let mut cases = vec![];
     let mut seen = HashSet::new();
     let mut max_table = 0usize;
@@ -929,6 +934,7 @@ pub fn run(mode: &str) {
         let nontrivial = nontrivial_nd || (c06 && (escapes || !is_supported(&d)));
         if seen.insert(text.clone()) && nontrivial { sum.distinct_nontrivial += 1; }
         sum.bump(&format!("shape:{shape_name}"));
+        if d.iter().any(|q| matches!(q.0[1], SimpleTerm::LiteralDatatype(..) | SimpleTerm::LiteralLanguage(..))) { sum.bump("generalized:literal-predicate"); }
         if has_repeat(&d) { sum.bump("class:node-twice-in-a-quad"); }
         if has_three(&d) { sum.bump("class:three-blank-nodes-in-a-quad"); }
         if nontrivial_nd { sum.bump("hash-n-degree-ran"); }
